@@ -1,16 +1,17 @@
 #!/bin/bash
-# tools/adopt_seed.sh <prop> <n>  : verify /tmp/seeds/<prop>/<n> and keep it as seeded/<prop>-<n>/
+# tools/adopt_seed2.sh <prop> <n> <as>  : verify ${SEEDROOT:-/tmp/seeds2}/<prop>/<n> and keep it as seeded/<prop>-<as>/
 set -u
 here=$(cd "$(dirname "$0")/.." && pwd)
-prop=$1; n=$2; sd=/tmp/seeds/$prop/$n
+prop=$1; n=$2; as=$3; sd=${SEEDROOT:-/tmp/seeds2}/$prop/$n
 [ -f "$sd/meta.json" ] || { echo "no seed $sd"; exit 2; }
 if "$here/tools/verify_seed.sh" "$sd"; then
-  d="$here/seeded/$prop-$n"; mkdir -p "$d"
+  d="$here/seeded/$prop-$as"; mkdir -p "$d"
   cp "$sd/patch.diff" "$sd/demo_test.go" "$d/"
   python3 - "$sd/meta.json" "$d/meta.json" "$prop" <<'PY'
 import json,sys
 m=json.load(open(sys.argv[1]))
 m['property']=sys.argv[3]
+m["round"]=int(__import__("os").environ.get("SEEDROUND","2"))
 m['confirmed_by_me']=["tools/verify_seed.sh: in a fresh scratch worktree of /repo HEAD: demo passes on the clean tree; patch applies and builds; demo fails with the patch; the pinned suite (all 955 stable tests) still passes with the patch; worktree removed"]
 json.dump(m,open(sys.argv[2],'w'),indent=1)
 PY
